@@ -1,11 +1,20 @@
 """Shared engine of C01 / C02 (and reused by others): generated flat constraint programs, free draws
 judged by the reference semantics, two-directional pinned probes, exhaustive truth on small domains,
 solution-first anchored programs for wide fields."""
-from ..core import hyp
+from ..core import hyp, findings
 from ..core.util import exc_sig, reset_library, cjson
 from ..model import sem, gen, flat, render
 
 KINDS = ["randomize", "randomize_with", "vsc.randomize", "vsc.randomize_with"]
+
+
+@findings.predicate("c02_statement_without_field")
+def pred_no_field_stmt(case):
+    """some top-level statement of a class block or of the inline block references no field at all (literals
+    only): the library attaches statements to rand sets through the fields they mention and drops these"""
+    cls = flat.cls_of(case["prog"])
+    stmts = [s for b in cls["blocks"] for s in b["stmts"]] + list(case.get("inline") or [])
+    return any(not gen.stmt_refs_field(s) for s in stmts)
 
 
 # ------------------------------------------------------------------------------------------------
